@@ -307,6 +307,7 @@ def parseSetOp? (args : List String) : Option (SetOp DKey DKey) :=
   | ["eq", o] => (parseSetReg? o).map .eq
   | ["from_iter", pulls, xs] => do pure (.from_iter (pulls != "0") (← parseKeys? xs))
   | ["extend", pulls, xs] => do pure (.extend (pulls != "0") (← parseKeys? xs))
+  | ["extend_from", o] => (parseSetReg? o).map .extend_from
   | ["alg", kind, o, script] => do
     let kind ← match kind with
       | "difference" => some AlgKind.difference | "intersection" => some .intersection
@@ -357,7 +358,13 @@ def parseOp? (toks : List String) : Option (Op DKey DVal DKey) :=
   | "u1" :: args => do pure (.umap 1 (mapOpToUnit (← parseMapOp? args)))
   | reg :: args => do
     let (isMap, i) ← parseReg? reg
-    if isMap then pure (.map i (← parseMapOp? args)) else pure (.set i (← parseSetOp? args))
+    if isMap then pure (.map i (← parseMapOp? args)) else
+      let sop ← parseSetOp? args
+      -- `sN extend_from sN` cannot be written in Rust (a set cannot be moved into its own `&mut self`
+      -- method; the model ignores such an operation): not an operation line, as before
+      match sop with
+      | .extend_from o => if o == i then none else pure (.set i sop)
+      | _ => pure (.set i sop)
   | _ => none
 
 
@@ -568,46 +575,6 @@ def serdeZstStep (sys : Sys DKey DVal DKey) (isMap : Bool) (i k : Nat) :
   | .panic c _ => (sys, out (.panic c) .unit)
   | .ub => (sys, out .ub .unit)
 
-/-- `dst.extend(src)` with `src` a `Set` that is consumed: `Extend for Set` is
-    `iter.into_iter().for_each(|k| { self.insert(k); })`, i.e. std's `fold` over `SetIntoIter::next`.
-    Composed from the model's `intoIterNextK .keys` on the source register and `insert` on the
-    destination register, sharing one world; if `insert` unwinds, the iterator (the rest of the source)
-    is dropped during the unwinding (`dropAndRenew` with injection suppressed, as `unwindWith` does);
-    at the end the exhausted iterator is dropped. -/
-def extendFromLoop (F : Env DKey Unit DKey) : Nat → Raw DKey Unit → St DKey Unit DKey →
-    Res (Raw DKey Unit × St DKey Unit DKey) Unit
-  | 0, rs, sd => .ok () (rs, sd)
-  | n + 1, rs, sd =>
-    match intoIterNextK F .keys ⟨rs, sd.w⟩ with
-    | .ub => .ub
-    | .panic c s1 => .panic c (s1.r, { sd with w := s1.w })
-    | .ok none s1 => .ok () (s1.r, { sd with w := s1.w })
-    | .ok (some (k, _)) s1 =>
-      match insert F k () ⟨sd.r, s1.w⟩ with
-      | .ub => .ub
-      | .ok _ s2 => extendFromLoop F n s1.r s2
-      | .panic c s2 =>
-        match dropAndRenew F ((⟨s1.r, s2.w⟩ : St DKey Unit DKey).setUnw true) with
-        | .ok _ s3 => .panic c (s3.r, { s2 with w := (s3.setUnw s2.w.unwinding).w })
-        | _ => .ub
-
-def extendFromStep (E : Env DKey DVal DKey) (sys : Sys DKey DVal DKey) (i j : Nat) :
-    Sys DKey DVal DKey × Out DKey DVal DKey :=
-  customStep sys [] [i, j] fun sys0 =>
-    let F := E.toUnit
-    let src := sys0.sets j
-    let fin (rs : Raw DKey Unit) (sd : St DKey Unit DKey) : Sys DKey DVal DKey :=
-      { sys0 with sets := updReg (updReg sys0.sets j rs) i sd.r, w := sys0.w.mergeUnit sd.w }
-    match extendFromLoop F (src.len + 1) src ⟨sys0.sets i, sys0.w.toUnit⟩ with
-    | .ub => .ub
-    | .panic c (rs, sd) => .panic c (fin rs sd)
-    | .ok _ (rs, sd) =>
-      -- the exhausted iterator is dropped; the harness leaves a fresh `new()` in the source register
-      match dropAndRenew F ⟨rs, sd.w⟩ with
-      | .ok _ s4 => .ok .unit (fin s4.r { sd with w := s4.w })
-      | .panic c s4 => .panic c (fin s4.r { sd with w := s4.w })
-      | .ub => .ub
-
 def keysOfRaw (r : Raw DKey Unit) : List (DKey × Unit) :=
   (List.range r.len).filterMap fun i => r.slots i
 
@@ -793,10 +760,6 @@ partial def loop (profile : Profile) (h : IO.FS.Stream) (out : IO.FS.Stream) (st
       | [reg, "serde_zst", k] =>
         match parseReg? reg, k.toNat? with
         | some (isMap, i), some k => some (serdeZstStep st.sys isMap i k)
-        | _, _ => none
-      | [reg, "extend_from", src] =>
-        match parseSetReg? reg, parseSetReg? src with
-        | some i, some j => if i == j then none else some (extendFromStep st.env st.sys i j)
         | _, _ => none
       | [reg, "defaults"] => (parseReg? reg).map fun (isMap, i) => defaultsStep st.env st.sys isMap i
       | _ => none
